@@ -1,15 +1,51 @@
-/- Line-protocol driver for the C17 model (ForML.Model.Strategy). -/
+/- Line-protocol driver for the C17 models (ForML.Model.Strategy, StrategyLatest, StrategyFloat). -/
 import ForML.Model.Sexp
 import ForML.Model.Strategy
+import ForML.Model.StrategyLatest
+import ForML.Model.StrategyFloat
 open ForML ForML.Strategy
 
 def optNat? : Sexp → Option (Option Nat)
   | .atom "none" => some none
   | x => x.nat?.map some
 
+def bool? : Sexp → Option Bool
+  | .atom "true" => some true
+  | .atom "false" => some false
+  | _ => none
+
 def rel? : Sexp → Option (Nat × List Nat)
   | .list [r, gs] => do pure (← r.nat?, ← gs.natList?)
   | _ => none
+
+def lop? : Sexp → Option LOp
+  | .atom "tick" => some .tick
+  | .list [.atom "publish", r] => r.nat?.map .publish
+  | .list [.atom "commit", r] => r.nat?.map .commit
+  | .list [.atom "select", u] => (bool? u).map .select
+  | _ => none
+
+def eop? : Sexp → Option EOp
+  | .atom "select" => some .select
+  | .list [.atom "publish", r] => r.nat?.map .publish
+  | .list [.atom "commit", r] => r.nat?.map .commit
+  | _ => none
+
+def inst? : Sexp → Option Inst
+  | .list [p, r, g] => do pure ⟨← p.nat?, ← r.nat?, ← optNat? g⟩
+  | _ => none
+
+def ofErr : KErr → Sexp
+  | .empty => .list [.atom "err", .atom "empty"]
+  | .invalid => .list [.atom "err", .atom "invalid"]
+
+def ofObs : Obs → Sexp
+  | .quiet => .atom "-"
+  | .picked r => .list [.atom "picked", Sexp.ofNat r]
+  | .served r g => .list [.atom "served", Sexp.ofNat r, Sexp.ofNat g]
+  | .err e => ofErr e
+
+def ofFl (x : Nat × Nat) : Sexp := Sexp.ofNats [x.1, x.2]
 
 def stepC17 : Sexp → Sexp
   | .list [.atom "abtest", d, .list ts, n] =>
@@ -27,6 +63,42 @@ def stepC17 : Sexp → Sexp
       Sexp.ofOption (fun (p : Nat × Nat) => Sexp.ofNats [p.1, p.2]) (pickLatest rels)
     | some rels, some (some r) =>
       Sexp.ofOption (fun (p : Nat × Nat) => Sexp.ofNats [p.1, p.2]) (pickConfigured rels r)
+    | _, _ => .atom "bad-op"
+  -- a registry history against `Latest`: observations per op and whether the refresher is still alive
+  | .list [.atom "lhist", survive, cfg, .list rels, .list ops] =>
+    match bool? survive, optNat? cfg, rels.mapM rel?, ops.mapM lop? with
+    | some survive, some cfg, some rels, some ops =>
+      let (s, obs) := runL survive cfg (LState.init rels) ops
+      .list [.atom "ok", .list (obs.map ofObs), Sexp.ofBool s.alive]
+    | _, _, _, _ => .atom "bad-op"
+  | .list [.atom "ehist", r, g, .list rels, .list ops] =>
+    match r.nat?, g.nat?, rels.mapM rel?, ops.mapM eop? with
+    | some r, some g, some rels, some ops =>
+      .list [.atom "ok", .list ((runE r g ⟨rels, none⟩ ops).2.map ofObs)]
+    | _, _, _, _ => .atom "bad-op"
+  -- `a == b` and hash agreement of two instances over a registry
+  | .list [.atom "insteq", .list rels, a, b] =>
+    match rels.mapM rel?, inst? a, inst? b with
+    | some rels, some a, some b =>
+      match instEq rels a b with
+      | .error e => ofErr e
+      | .ok (v, _, _) =>
+        let h := match instHash rels a, instHash rels b with
+          | .ok x, .ok y => Sexp.ofBool (x == y)
+          | _, _ => .atom "none"
+        .list [.atom "ok", Sexp.ofBool v, h]
+    | _, _, _ => .atom "bad-op"
+  -- binary64 division of naturals: (mantissa, negated exponent), value = mantissa / 2^exponent
+  | .list [.atom "fdiv", a, b] =>
+    match a.nat?, b.nat? with
+    | some a, some b => if 0 < a ∧ a ≤ b then ofFl (fdiv a b) else .atom "bad-op"
+    | _, _ => .atom "bad-op"
+  -- slot targets and the float eligibility sequence of integer weights
+  | .list [.atom "ftrace", ws, n] =>
+    match ws.natList?, n.nat? with
+    | some ws, some n =>
+      if ws.all (0 < ·) then .list [.atom "ok", .list (ws.map (fun w => ofFl (fdiv w ws.sum))), Sexp.ofNats (ftrace ws n)]
+      else .atom "bad-op"
     | _, _ => .atom "bad-op"
   | _ => .atom "bad-op"
 
